@@ -640,13 +640,20 @@ class SystemTimeValue(LiteralValue):
 
 
 class Criterion(Term):
+    # (an EmptyCriterion is the neutral element on the right as it is on the left)
     def __and__(self, other: Any) -> "ComplexCriterion":
+        if isinstance(other, EmptyCriterion):
+            return self  # type:ignore[return-value]
         return ComplexCriterion(Boolean.and_, self, other)
 
     def __or__(self, other: Any) -> "ComplexCriterion":
+        if isinstance(other, EmptyCriterion):
+            return self  # type:ignore[return-value]
         return ComplexCriterion(Boolean.or_, self, other)
 
     def __xor__(self, other: Any) -> "ComplexCriterion":
+        if isinstance(other, EmptyCriterion):
+            return self  # type:ignore[return-value]
         return ComplexCriterion(Boolean.xor_, self, other)
 
     @staticmethod
